@@ -9,9 +9,9 @@
      _parse_simple_lines      parser.py:2326ff   parse_m (lexical skeleton only: which lines form
                                                  which block; headers and the elif/else/except
                                                  probes classified on the comment-stripped line)
-     parse()                  parser.py:4213ff   top_parse (headers classified on the comment-stripped
-                                                 line, while True / while / def / for only at
-                                                 indentation 0)
+     parse()                  parser.py:4213ff   top_parse (target(...) lines and the import filter first;
+                                                 headers classified on the comment-stripped line,
+                                                 while True / while / def / for only at indentation 0)
 
    State of the code: with the repair "fix: comments never change the block structure the parser
    sees" (comment-only lines are treated like blank lines by _collect_block; parse() and the
@@ -19,7 +19,7 @@
 
    No proofs in this file. *)
 From Coq Require Import ZArith List Bool Lia.
-From RV Require Import Base.Wire Base.Text.
+From RV Require Import Base.Wire Base.Text Lang.Rx.
 Import ListNotations.
 Open Scope Z_scope.
 
@@ -408,6 +408,26 @@ Definition top_import (t : text) : bool :=
   | _ => false
   end.
 
+(* RE_TARGET_CALL and RE_TARGET_INLINE (without its prefix (?<!\.)\b, which rx_search_nb implements),
+   written in the regex type of Lang/Rx.v.  Props/C07.v holds the obligation that the patterns
+   regenerated from the current parser.py (Gen.LineRx) are these two terms. *)
+Definition cc_quote : cc := CC false [IRange 39 39; IRange 34 34].
+Definition cc_port : cc :=
+  CC false [IRange 65 90; IRange 97 122; IRange 48 57; IRange 58 58; IRange 95 95; IRange 45 45;
+            IRange 46 46; IRange 47 47; IRange 92 92; IRange 126 126].
+Definition rx_target_args : list rx :=
+  [RStar rsp; lit 40; RStar rsp;
+   ropt (cat_list [lit 112; lit 111; lit 114; lit 116; RStar rsp; lit 61; RStar rsp]);
+   ropt (RC cc_quote); RStar rsp; rplus (RC cc_port); RStar rsp; ropt (RC cc_quote);
+   ropt (cat_list [RStar rsp; lit 44; RStar (RC (CC true [IRange 41 41]))]); lit 41].
+Definition rx_target_call : rx := cat_list (RStar rsp :: lits w_target ++ rx_target_args ++ [RStar rsp]).
+Definition rx_target_inline_body : rx := cat_list (lits w_target ++ rx_target_args).
+
+(* `RE_TARGET_CALL.match(text)` or `list(RE_TARGET_INLINE.finditer(text))` non-empty: parse() records the
+   port and skips the line *)
+Definition top_target (t : text) : bool :=
+  rx_match rx_target_call t || rx_search_nb rx_target_inline_body None t.
+
 Inductive titem :=
 | TSetup (snippet : list text) (nodes : list node)      (* _parse_simple_lines(snippet, scope="setup", depth=0) *)
 | TLoop (raw : list text) (nodes : list node)           (* body of the column-0 `while True:` *)
@@ -422,6 +442,7 @@ Fixpoint top_parse (fuel : nat) (ls : list text) : list titem :=
     | raw :: rest =>
       let t := strip (strip_inline_comment raw) in
       if is_nil t || starts_hash t then top_parse f rest
+      else if top_target t then top_parse f rest
       else if top_import t then top_parse f rest
       else if (indent_of raw =? 0)%nat && re_while_true t then
         let blk := take_block O rest in
